@@ -1,11 +1,13 @@
 (* Extraction of the liftfull engine (owner C13; serves C04, C08, C01): the
    content-carrying lifting mirror Model.LiftFull, its erasure onto Model.Ir, the
    decidable well-formedness predicate of the totality theorem, and the two sides
-   of the skeleton-agreement theorem (evaluated on every case as well).
+   of the skeleton-agreement theorem (evaluated on every case as well); for C08 the
+   decidable hypothesis of C08_liftfull_distinct_sources_distinct_subkeys and its conclusion.
    Only ExtrOcamlBasic. *)
 Require Extraction.
 Require Import ExtrOcamlBasic.
-Require Model.Base Model.Ast Model.Ir Model.Lift Model.LiftFull.
+Require Model.Base Model.Ast Model.Ir Model.Lift Model.LiftFull Model.SignalAssign Model.SigAssignSource.
 Separate Extraction Base.base_roots Base.outcome LiftFull.try_lift_impl LiftFull.erase_cfg LiftFull.definition_wf
   LiftFull.skel LiftFull.skel_block LiftFull.lifted_stmts LiftFull.graph_stmts LiftFull.lift_meta
-  LiftFull.xstmt_meta LiftFull.ensure_unique_variables Lift.lift.
+  LiftFull.xstmt_meta LiftFull.ensure_unique_variables Lift.lift
+  SigAssignSource.source_metas_distinct_b SigAssignSource.source_signal_assignments SignalAssign.subkeys_distinct_b.
